@@ -22,7 +22,7 @@ OpNames == <<"update_ibi_pot", "dist_boltzmann_invert", "table_linearop", "table
              "table_combine_sum", "merge_tables", "add_POT", "table_scale", "table_integrate",
              "resample_derivative", "integrate_derivative", "potential_shift", "table_smooth",
              "table_extrapolate", "potential_extrapolate", "table_get_value", "table_change_flag",
-             "table_dummy", "table_average", "dist_adjust", "table_switch_border">>
+             "table_dummy", "table_average", "dist_adjust", "table_switch_border", "resample_same">>
 OpIdx(op) == CHOOSE i \in 1..Len(OpNames) : OpNames[i] = op
 
 \* ---- generators ------------------------------------------------------------------------------
@@ -42,7 +42,14 @@ RndE(sd, salt, n) == [k \in 1..n |-> LET r == Pick(sd, salt + k, 9) IN IF r = 0 
 CSeq == <<<<1, 1>>, <<2, 1>>, <<1, 2>>, <<3, 1>>, <<5, 2>>>>
 Coef(sd, i) == PickSeq(sd, i, <<<<-1, 1>>, <<2, 1>>, <<1, 2>>, <<0, 1>>, <<-3, 4>>, <<1, 1>>, <<5, 2>>>>)
 
-Base(op, n, s, sd) == [op |-> op, n |-> n, seed |-> s, x0 |-> Pick(sd, 1, 3), h |-> HOf(sd)]
+\* grid offsets: equidistant, or strictly increasing with gaps 1..3 (every second case)
+RECURSIVE GapG(_, _)
+GapG(sd, n) == IF n = 1 THEN <<0>> ELSE LET p == GapG(sd, n - 1) IN Append(p, p[n - 1] + 1 + Pick(sd, 1200 + n, 3))
+GOf(sd, n) == IF Pick(sd, 11, 2) = 0 THEN UniformG(n) ELSE GapG(sd, n)
+UniformOnly == {"table_switch_border", "table_dummy", "resample_same"}
+Base(op, n, s, sd) == [op |-> op, n |-> n, seed |-> s, x0 |-> Pick(sd, 1, 3), h |-> HOf(sd),
+                       g |-> IF op \in UniformOnly THEN UniformG(n) ELSE GOf(sd, n)]
+XS(c) == XSeq(c.x0, c.h, c.g)
 
 Case(op, n, s) ==
   LET sd == s * 97 + n * 7 + OpIdx(op)
@@ -63,7 +70,7 @@ Case(op, n, s) ==
              z == Pick(sd, 8, 3)
              nn == n + 7 + a + z
              und(k) == IF usemin /\ Pick(sd, 600 + k, 2) = 1 THEN mk - Pick(sd, 700 + k, 2) ELSE Z
-         IN [b EXCEPT !.n = nn] @@
+         IN [b EXCEPT !.n = nn, !.g = GOf(sd, nn)] @@
             [e |-> [k \in 1..nn |-> IF k <= a \/ k > nn - z THEN und(k)
                                     ELSE IF k <= a + 10 \/ Pick(sd, 800 + k, 4) # 0 THEN lo + 1 + Pick(sd, 100 + k, 6)
                                     ELSE und(k)],
@@ -90,7 +97,7 @@ Case(op, n, s) ==
     [] op = "table_scale" -> b @@ [t |-> RTab(sd, 100, n), p1 |-> Coef(sd, 5), p2 |-> Coef(sd, 6)]
     [] op = "table_integrate" ->
          LET mode == PickSeq(sd, 6, <<"plain", "plain", "sphere", "S">>)
-         IN [b EXCEPT !.x0 = IF mode = "S" THEN b.x0 + 1 ELSE b.x0] @@
+         IN [b EXCEPT !.x0 = IF mode = "S" THEN b.x0 + 1 ELSE b.x0, !.g = IF mode = "S" THEN UniformG(n) ELSE b.g] @@
             [t |-> RTab(sd, 100, n), from |-> PickSeq(sd, 5, <<"left", "right", "">>), mode |-> mode,
              kt |-> PickSeq(sd, 7, <<<<1, 1>>, <<5, 2>>, <<3, 4>>>>)]
     [] op = "resample_derivative" -> b @@ [t |-> Tab(RY(sd, 100, n), FlagFam(sd, 600, n, Pick(sd, 5, 3)))]
@@ -120,13 +127,28 @@ Case(op, n, s) ==
                   lf |-> PickSeq(sd, 7, <<"linear", "constant", "quadratic">>),
                   rf |-> PickSeq(sd, 8, <<"", "", "linear", "constant">>)]
     [] op = "table_get_value" ->
-         b @@ [t |-> RTab(sd, 100, n), X |-> RMul(RI(2 * b.x0 + Pick(sd, 5, 2 * n - 1)), RMul(b.h, <<1, 2>>))]
+         b @@ [t |-> RTab(sd, 100, n), X |-> RMul(RI(2 * b.x0 + Pick(sd, 5, 2 * b.g[n] + 1)), RMul(b.h, <<1, 2>>))]
     [] op = "table_dummy" -> b @@ [y1 |-> Coef(sd, 5), y2 |-> Coef(sd, 6)]
     [] op = "table_average" ->
          LET c == 2 + Pick(sd, 5, 3)
          IN b @@ [ts |-> [j \in 1..c |-> Tab(RY(sd, 100 * j, n), [k \in 1..n |-> "i"])]]
     [] op = "table_switch_border" ->
          b @@ [t |-> Tab(RY(sd, 100, n), FlagFam(sd, 600, n, 0)), w |-> 1 + Pick(sd, 5, Min2(3, n - 1))]
+    [] op = "resample_same" ->           \* >= 40 points, DECIMAL step, flag transitions i->o, i->u, u->i at late points
+         LET nn == 40 + 5 * n + Pick(sd, 5, 21)
+             p == 17 + Pick(sd, 6, nn - 25)
+             r == 1 + Pick(sd, 7, 3)
+             q == 1 + Pick(sd, 8, 4)
+             pat == Pick(sd, 9, 3)
+             lead == Pick(sd, 10, 3)
+         IN [b EXCEPT !.n = nn, !.g = UniformG(nn),
+                      !.h = PickSeq(sd, 12, <<<<1, 20>>, <<1, 10>>, <<1, 100>>, <<3, 100>>, <<7, 100>>, <<1, 50>>, <<1, 20>>>>)] @@
+            [t |-> Tab(RY(sd, 100, nn),
+                       [k \in 1..nn |-> IF k <= lead THEN "o" ELSE IF k <= p THEN "i"
+                                        ELSE CASE pat = 0 -> "o"
+                                               [] pat = 1 -> IF k <= p + r THEN "u" ELSE "i"
+                                               [] pat = 2 -> IF k <= p + r THEN "u" ELSE IF k <= p + r + q THEN "i" ELSE "o"]),
+             type |-> PickSeq(sd, 13, <<"linear", "linear", "akima", "cubic", "">>)]
 
 \* ---- expected output of a case -----------------------------------------------------------------
 FnOf(c) == IF c.fn = "" THEN "quadratic" ELSE c.fn
@@ -137,24 +159,25 @@ Expect(c) ==
   CASE c.op = "update_ibi_pot" -> UpdateIBI(c.tg, c.cu, c.pot.f, c.c)
     [] c.op = "dist_boltzmann_invert" -> BoltzmannInvert(c.e, c.c, c.mk)
     [] c.op = "table_linearop" -> LinearOp(c.t, c.a, c.b, c.wf)
-    [] c.op = "table_linearop_x" -> Exact(c.t.y, c.t.f) @@ [x |-> LinearOpX(c.t, c.x0, c.h, c.a, c.b, c.wf)]
+    [] c.op = "table_linearop_x" -> Exact(c.t.y, c.t.f) @@ [x |-> LinearOpX(c.t, XS(c), c.a, c.b, c.wf)]
     [] c.op = "table_combine" -> Combine(c.t1, c.t2, c.cop, c.sc, c.wf)
     [] c.op = "table_combine_sum" -> CombineSum(c.t1, c.t2, c.cop, c.sc, c.wf)
     [] c.op = "merge_tables" -> Merge(c.src, c.off, c.dst, c.wf, c.noflags, c.novalues)
     [] c.op = "add_POT" -> AddPot(c.t1, c.t2)
-    [] c.op = "table_scale" -> Scale(c.t, c.p1, c.p2)
-    [] c.op = "table_integrate" -> Integrate(c.t, c.x0, c.h, FromOf(c), c.mode, c.kt)
-    [] c.op = "resample_derivative" -> Differentiate(c.t, c.h)
+    [] c.op = "table_scale" -> Scale(c.t, XS(c), c.p1, c.p2)
+    [] c.op = "table_integrate" -> Integrate(c.t, XS(c), FromOf(c), c.mode, c.kt)
+    [] c.op = "resample_derivative" -> Differentiate(c.t, XS(c), c.g)
+    [] c.op = "resample_same" -> ResampleSame(c.t, XS(c))
     [] c.op = "integrate_derivative" ->
-         Exact(MidAvg(c.t.y), [k \in 1..(c.n - 1) |-> "i"])
+         Exact(OnHalfGrid(MidAvg(c.t.y), c.g), [j \in 1..c.g[c.n] |-> "i"])
     [] c.op = "potential_shift" -> Shift(c.t, TypeOf(c))
     [] c.op = "table_smooth" -> Smooth(c.t)
     [] c.op = "table_change_flag" -> ChangeFlag(c.t)
     [] c.op = "dist_adjust" -> DistAdjust(c.t)
-    [] c.op = "table_extrapolate" -> Extrapolate(c.t, c.h, FnOf(c), RegOf(c), c.A, c.C, c.fu)
+    [] c.op = "table_extrapolate" -> Extrapolate(c.t, XS(c), FnOf(c), RegOf(c), c.A, c.C, c.fu)
     [] c.op = "potential_extrapolate" ->
-         PotExtrapolate(c.t, c.h, c.type, c.lf, IF c.rf = "" THEN PotDefaultR(c.type) ELSE c.rf, c.A, <<10000, 1>>)
-    [] c.op = "table_get_value" -> GetValue(c.t, c.x0, c.h, c.X)
+         PotExtrapolate(c.t, XS(c), c.type, c.lf, IF c.rf = "" THEN PotDefaultR(c.type) ELSE c.rf, c.A, <<10000, 1>>)
+    [] c.op = "table_get_value" -> GetValue(c.t, XS(c), c.X)
     [] c.op = "table_dummy" -> Dummy(c.n, c.y1, c.y2)
     [] c.op = "table_average" -> Average(c.ts)
     [] c.op = "table_switch_border" -> SwitchBorder(c.t, c.n - c.w, c.w)
@@ -206,16 +229,17 @@ AlgComb(c) ==
      /\ CombineSum(c.t1, c.t2, c.cop, c.sc, "").v
           = LET o == Combine(c.t1, c.t2, c.cop, c.sc, "") g(k) == o.y[k] IN RSum(g, 1, c.n)
 AlgInt(c) ==
-  LET g == IntPre(c.t, c.x0, c.h, c.mode, c.kt)
-      L == IntegrateY(g, c.h, "left")
-      R == IntegrateY(g, c.h, "right")
+  LET xs == XS(c)
+      g == IntPre(c.t, xs, c.mode, c.kt)
+      L == IntegrateY(g, xs, "left")
+      R == IntegrateY(g, xs, "right")
       n == c.n
-  IN /\ IntegrateOK(g, c.h, "left", L) /\ IntegrateOK(g, c.h, "right", R)
+  IN /\ IntegrateOK(g, xs, "left", L) /\ IntegrateOK(g, xs, "right", R)
      /\ \A k \in 1..n : RSub(L[k], R[k]) = L[n]                    \* the two zero points differ by a constant
-     /\ DiffY(L, c.h) = MidAvg(g) /\ DiffY(R, c.h) = MidAvg(g)     \* differentiate o integrate = id (linear interpolant)
-     /\ \A k \in 1..n : RAdd(c.t.y[1], CumSum(DiffY(c.t.y, c.h), c.h, k - 1)) = c.t.y[k]   \* integrate o differentiate = id
-     /\ \A k \in 1..(n - 1) : ~IntegrateOK(g, c.h, "left", Bump(L, k + 1))
-     /\ Integrate(c.t, c.x0, c.h, FromOf(c), c.mode, c.kt).f = c.t.f
+     /\ DiffY(L, xs) = MidAvg(g) /\ DiffY(R, xs) = MidAvg(g)     \* differentiate o integrate = id (linear interpolant), any gaps
+     /\ \A k \in 1..n : RAdd(c.t.y[1], CumSum(DiffY(c.t.y, xs), xs, k - 1)) = c.t.y[k]   \* integrate o differentiate = id
+     /\ \A k \in 1..(n - 1) : ~IntegrateOK(g, xs, "left", Bump(L, k + 1))
+     /\ Integrate(c.t, xs, FromOf(c), c.mode, c.kt).f = c.t.f
 AlgShift(c) ==
   LET ty == TypeOf(c)
       o == Shift(c.t, ty)
@@ -235,12 +259,12 @@ AlgSmooth(c) ==
 AlgExt(c) ==
   LET fn == FnOf(c)
       reg == RegOf(c)
-      o == Extrapolate(c.t, c.h, fn, reg, c.A, c.C, c.fu)
+      o == Extrapolate(c.t, XS(c), fn, reg, c.A, c.C, c.fu)
       fi == FirstI(c.t)
       la == LastI(c.t)
       small == c.C[1] < 100
-      x(k) == GX(c.x0, c.h, k)
-      ml == IF fn = "constant" THEN RZero ELSE RDiv(RSub(c.t.y[fi + c.A], c.t.y[fi]), RMul(RI(c.A), c.h))
+      x(k) == XS(c)[k]
+      ml == IF fn = "constant" THEN RZero ELSE RDiv(RSub(c.t.y[fi + c.A], c.t.y[fi]), RSub(x(fi + c.A), x(fi)))
   IN /\ ExtrapolateDefined(c.t, fn, reg, c.A)
      /\ \A k \in fi..la : o.y[k] = c.t.y[k] /\ o.f[k] = c.t.f[k]              \* nothing changes inside
      /\ \A k \in 1..c.n : o.f[k] # c.t.f[k] => (o.f[k] = "i" /\ c.fu /\ (k < fi \/ k > la))
@@ -254,12 +278,12 @@ AlgExt(c) ==
      /\ fn = "constant" => \A k \in 1..c.n : (k < fi /\ reg # "right" => o.y[k] = c.t.y[fi])
                                           /\ (k > la /\ reg # "left" => o.y[k] = c.t.y[la])
      /\ LET lin == Tab([k \in 1..c.n |-> RAdd(RMul(<<3, 2>>, x(k)), <<-1, 4>>)], c.t.f)   \* a straight line is reproduced
-        IN Extrapolate(lin, c.h, "linear", "leftright", c.A, c.C, TRUE).y = lin.y
+        IN Extrapolate(lin, XS(c), "linear", "leftright", c.A, c.C, TRUE).y = lin.y
 AlgMisc(c) ==
   CASE c.op = "table_scale" ->
-         /\ Scale(c.t, c.p1, c.p1).y = LinearOp(c.t, c.p1, RZero, "").y
-         /\ Scale(c.t, c.p1, c.p2).y[1] = RMul(c.p1, c.t.y[1]) /\ Scale(c.t, c.p1, c.p2).y[c.n] = RMul(c.p2, c.t.y[c.n])
-         /\ Scale(c.t, c.p1, c.p2).f = c.t.f
+         /\ Scale(c.t, XS(c), c.p1, c.p1).y = LinearOp(c.t, c.p1, RZero, "").y
+         /\ Scale(c.t, XS(c), c.p1, c.p2).y[1] = RMul(c.p1, c.t.y[1]) /\ Scale(c.t, XS(c), c.p1, c.p2).y[c.n] = RMul(c.p2, c.t.y[c.n])
+         /\ Scale(c.t, XS(c), c.p1, c.p2).f = c.t.f
     [] c.op = "merge_tables" ->
          /\ Merge(c.dst, 0, c.dst, "", FALSE, FALSE) = Exact(c.dst.y, c.dst.f)
          /\ LET o == Merge(c.src, c.off, c.dst, c.wf, c.noflags, c.novalues)
@@ -271,15 +295,22 @@ AlgMisc(c) ==
          IN \A k \in 1..c.n : /\ (c.t1.f[k] = "u" /\ c.t2.f[k] = "u") => o.f[k] = "u" /\ ~\E p \in o.altf : p[1] = k
                               /\ (c.t1.f[k] # "u" /\ c.t2.f[k] # "u") => o.y[k] = RAdd(c.t1.y[k], c.t2.y[k]) /\ o.f[k] = c.t1.f[k]
     [] c.op = "table_get_value" ->
-         LET o == GetValue(c.t, c.x0, c.h, c.X)
+         LET o == GetValue(c.t, XS(c), c.X)
          IN /\ \E k \in 1..c.n : o.v = c.t.y[k]
-            /\ \A k \in 1..c.n : GetValue(c.t, c.x0, c.h, GX(c.x0, c.h, k)) = [kind |-> "scalar", v |-> c.t.y[k], alt |-> {}]
+            /\ \A k \in 1..c.n : GetValue(c.t, XS(c), XS(c)[k]) = [kind |-> "scalar", v |-> c.t.y[k], alt |-> {}]
     [] c.op = "resample_derivative" ->
-         LET o == Differentiate(c.t, c.h)
-         IN /\ Len(o.y) = c.n - 1
-            /\ \A k \in 1..c.n : RAdd(c.t.y[1], CumSum(o.y, c.h, k - 1)) = c.t.y[k]
+         LET o == Differentiate(c.t, XS(c), c.g)
+             unit == XSeq(c.x0, c.h, UniformG(c.g[c.n] + 1))      \* summing slope * h over the half-step grid gives the table back
+         IN /\ Len(o.y) = c.g[c.n]
+            /\ \A k \in 1..c.n : RAdd(c.t.y[1], CumSum(o.y, unit, c.g[k])) = c.t.y[k]
     [] c.op = "integrate_derivative" ->
-         DiffY(IntegrateY(c.t.y, c.h, c.from), c.h) = MidAvg(c.t.y)
+         DiffY(IntegrateY(c.t.y, XS(c), c.from), XS(c)) = MidAvg(c.t.y)
+    [] c.op = "resample_same" ->
+         LET o == ResampleSame(c.t, XS(c))
+         IN /\ o.y = c.t.y /\ o.f = c.t.f /\ o.d.f = c.t.f
+            /\ \E k \in 18..(c.n - 1) : c.t.f[k] # c.t.f[k + 1]                     \* a flag transition at a late point
+            /\ \A k \in 1..(c.n - 1) : RMul(o.d.y[k], RSub(XS(c)[k + 1], XS(c)[k])) = RSub(c.t.y[k + 1], c.t.y[k])
+            /\ \A p \in o.d.alt : RMul(p[2], RSub(XS(c)[p[1]], XS(c)[p[1] - 1])) = RSub(c.t.y[p[1]], c.t.y[p[1] - 1])
     [] c.op = "table_dummy" ->
          LET o == Dummy(c.n, c.y1, c.y2)
          IN o.y[1] = c.y1 /\ o.y[c.n] = c.y2 /\ \A k \in 2..(c.n - 1) : RSub(o.y[k + 1], o.y[k]) = RSub(o.y[k], o.y[k - 1])
@@ -316,7 +347,7 @@ Algebra ==
 SameGrid ==
   ph = 1 =>
     LET o == Expect(cs)
-        m == IF cs.op \in {"resample_derivative", "integrate_derivative"} THEN cs.n - 1 ELSE cs.n
+        m == IF cs.op \in {"resample_derivative", "integrate_derivative"} THEN cs.g[cs.n] ELSE cs.n
     IN CASE o.kind = "table" -> Len(o.y) = m /\ Len(o.f) = m /\ \A p \in o.alt : p[1] \in 1..m
          [] o.kind = "range" -> Len(o.lo) = m /\ Len(o.hi) = m /\ Len(o.f) = m
          [] o.kind = "squares" -> Len(o.y2) = m
@@ -327,7 +358,7 @@ SameGrid ==
 FlagsAsStated ==
   ph = 1 =>
     (cs.op \in {"table_linearop", "table_linearop_x", "table_scale", "table_integrate", "potential_shift", "table_smooth",
-                "dist_adjust", "table_switch_border"}
+                "dist_adjust", "table_switch_border", "resample_same"}
        => Expect(cs).f = cs.t.f)
 
 Vector == (ph = 1 /\ Emit) => PrintT(ToJson([c |-> cs, exp |-> Expect(cs)]))
